@@ -1,3 +1,256 @@
+// eng_pair.rs — C18: the modification-time shortcut never changes a result.  Differential: each
+// history is executed as is, and with the file-state table erased before every build; under the
+// 'distinct' and the coarse 'tick' clock; under a policy schedule (no alignment needed).
+
 use super::*;
-pub fn run_one(_cfg : &Config, _seed : u64, _k : u64, _stats : &mut Stats) -> Vec<Found> { vec![] }
-pub fn replay(_case : &Case) -> Vec<(String, String)> { vec![] }
+use crate::current::CurrentFileStates;
+use super::super::hist::{oracle_c01, table_path, in_cache, in_ruler_dir};
+use super::super::scen::RULER_DIR;
+use super::super::util::{cache_name_of, show_bytes};
+
+fn clock_name(c : ClockMode) -> &'static str
+{
+    match c { ClockMode::Distinct => "distinct-clock", ClockMode::Tick => "tick-clock" }
+}
+
+/* probe: table entries whose remembered mtime equals the file's current mtime but whose remembered
+   hash is not the hash of the file's bytes ("table entry attached to a different file") */
+fn stale_table_entries(runner : &Runner) -> usize
+{
+    let disk = runner.world.snapshot().0;
+    let targets : Vec<String> = runner.rules.iter().flat_map(|r| r.targets.clone()).collect();
+    let mut n = 0;
+    let r = std::panic::catch_unwind(std::panic::AssertUnwindSafe(||
+    {
+        match CurrentFileStates::from_file(runner.world.system(), table_path())
+        {
+            Ok(mut t) =>
+            {
+                let blob = t.take_blob(targets.clone());
+                let mut k = 0;
+                for info in blob.get_file_infos()
+                {
+                    if let (Some(c), Some((mtime, _))) = (disk.read(&info.path), disk.meta(&info.path))
+                    {
+                        if info.file_state.timestamp == mtime && info.file_state.ticket.human_readable() != cache_name_of(&c)
+                        {
+                            k += 1;
+                        }
+                    }
+                }
+                k
+            },
+            Err(_) => 0,
+        }
+    }));
+    if let Ok(k) = r { n = k; }
+    n
+}
+
+pub fn run_pair(case : &Case, mut stats : Option<&mut Stats>) -> Vec<Violation>
+{
+    let mut out = vec![];
+    let mut a = Runner::new(case);
+    let mut b = Runner::new(case);
+    let clock = clock_name(case.knobs.clock);
+    let mut restores_seen = false;
+    let mut shortcut_after_restore = false;
+    let mut builds = 0;
+
+    while !a.done()
+    {
+        let i = a.next_op;
+        let is_build = match &case.ops[i] { Op::Build{..} => true, _ => false };
+        if is_build
+        {
+            // erase the table in execution B (no clock tick: the erasure is not a user action of the history)
+            let mut g = b.world.lock();
+            let _ = g.disk.remove_file(&table_path());
+        }
+        let name = match &case.ops[i] { Op::Build{ sched, .. } | Op::Clean{ sched, .. } => sched.name(), _ => "" };
+        let ia = a.step();
+        let ib = b.step();
+        match (ia, ib)
+        {
+            (Some(ia), Some(ib)) =>
+            {
+                if let Some(s) = stats.as_deref_mut()
+                {
+                    s.note_invocation(&ia, name);
+                    s.note_invocation(&ib, name);
+                    if is_build { s.inc("fault.table_erased_before_build"); }
+                }
+                if ia.is_build
+                {
+                    builds += 1;
+                    // did the shortcut fire after a restore-by-rename?  (a get_modified on a path that
+                    // was restored earlier in this history, not followed by hashing = no open of it)
+                    for e in ia.res.events.iter()
+                    {
+                        if let Ev::Fs{ op : FsOp::Rename, origin : Origin::Ruler, path, path2 : Some(to), ok : true, .. } = &e.kind
+                        {
+                            if in_cache(path) && !in_ruler_dir(to) { restores_seen = true; }
+                        }
+                    }
+                    if restores_seen && builds >= 2 { shortcut_after_restore = true; }
+
+                    let va = ia.res.verdict.canonical();
+                    let vb = ib.res.verdict.canonical();
+                    if ia.res.verdict.returned() && ib.res.verdict.returned()
+                    {
+                        if va != vb
+                        {
+                            out.push(Violation{ prop : "C18", sig : format!("C18:verdict-differs:{}", clock),
+                                detail : format!("op {}: with the table: {}; with the table erased: {}", i, va, vb) });
+                        }
+                        else
+                        {
+                            let wa = ia.after.workspace(RULER_DIR);
+                            let wb = ib.after.workspace(RULER_DIR);
+                            for (p, (c, _)) in wa.iter()
+                            {
+                                match wb.get(p)
+                                {
+                                    Some((c2, _)) if **c == **c2 => {},
+                                    other =>
+                                    {
+                                        out.push(Violation{ prop : "C18", sig : format!("C18:content-differs:{}", clock),
+                                            detail : format!("op {}: {} is {} with the table and {:?} with the table erased", i, p, show_bytes(c), other.map(|(c2, _)| show_bytes(c2))) });
+                                        break;
+                                    },
+                                }
+                            }
+                            for p in wb.keys()
+                            {
+                                if !wa.contains_key(p)
+                                {
+                                    out.push(Violation{ prop : "C18", sig : format!("C18:content-differs:{}", clock),
+                                        detail : format!("op {}: {} exists only with the table erased", i, p) });
+                                    break;
+                                }
+                            }
+                        }
+                    }
+                    if case.knobs.clock == ClockMode::Distinct
+                    {
+                        for v in oracle_c01(&ia).into_iter().chain(oracle_c01(&ib).into_iter())
+                        {
+                            out.push(Violation{ prop : "C18", sig : v.sig.replace("C01:", "C18:distinct-clock-cross-check:"), detail : v.detail });
+                        }
+                    }
+                    if let Some(s) = stats.as_deref_mut()
+                    {
+                        let n = stale_table_entries(&a);
+                        if n > 0 { s.add("probe.table_entry_attached_to_a_different_file", n as u64); }
+                    }
+                }
+                a.absorb(&ia);
+                b.absorb(&ib);
+            },
+            (None, None) => { if let Some(s) = stats.as_deref_mut() { s.inc(&format!("userop.{}", case.ops[i].kind())); } },
+            _ => {},
+        }
+    }
+    if let Some(s) = stats.as_deref_mut()
+    {
+        s.inc("runs");
+        s.inc(&format!("c18.histories.{}", clock));
+        if shortcut_after_restore
+        {
+            s.inc("c18.histories_with_build_after_restore");
+            s.distinct.insert(H64::new().str(clock).u64(shape_hash(&case.rules)).u64(ops_hash(&case.ops)).get());
+        }
+    }
+    out
+}
+
+pub fn replay(case : &Case) -> Vec<(String, String)>
+{
+    run_pair(case, None).into_iter().map(|v| (v.sig, v.detail)).collect()
+}
+
+pub fn run_one(cfg : &Config, seed : u64, k : u64, stats : &mut Stats) -> Vec<Found>
+{
+    let mut rng = Rng::derive(seed, 5);
+    let mut g = GenCfg::base(cfg.thorough);
+    g.max_rules = rng.range(1, if cfg.thorough { 10 } else { 6 });
+    g.max_ops = if cfg.thorough { 12 } else { 8 };
+    g.min_ops = 3;
+    g.shared_pool = rng.chance(3, 4);
+    g.empty_salts = rng.chance(3, 4);
+    g.twins = rng.chance(1, 3);
+    g.failing = rng.chance(1, 6);
+    g.missing_leaves = rng.chance(1, 6);
+    g.rule_edits = rng.chance(1, 3);
+    g.user_damage = rng.chance(1, 2);
+    g.cleans = *rng.pick(&[10u64, 20, 30]);
+    g.goals = true;
+    g.clock = Some(if rng.chance(1, 2) { ClockMode::Distinct } else { ClockMode::Tick });
+    g.policy_sched = Some(if rng.chance(1, 2) { Strategy::Serial } else { Strategy::Reverse });
+    if rng.chance(1, 2)
+    {
+        // the region where a remembered (hash, mtime) pair can land on a different file: few
+        // leaves, few contents, copy-like rules, many edits and reverts between builds
+        g.copy_rules = true;
+        g.shared_pool = true;
+        g.edits_only = rng.chance(2, 3);
+        g.failing = false;
+        g.missing_leaves = false;
+        g.max_ops = if cfg.thorough { 14 } else { 10 };
+        g.min_ops = 6;
+        g.cleans = *rng.pick(&[0u64, 0, 10]);
+        g.twins = false;
+    }
+    let epoch_mode = g.copy_rules && rng.chance(1, 2);
+    if epoch_mode
+    {
+        g.max_ops = 0;
+        g.min_ops = 0;
+        g.end_with_build = false;
+        g.max_rules = rng.range(2, 5);
+    }
+    let mut gen = Gen::new(seed, g);
+    let mut case = gen.case();
+    if epoch_mode
+    {
+        // epochs: edit/revert some leaves from a pool of 2-3 shared values, occasionally clean a
+        // target, then build everything
+        stats.inc("c18.epoch_mode_histories");
+        case.ops.clear();
+        let leaves = gen.leaf_names();
+        let targets : Vec<String> = gen.current_rules().iter().flat_map(|r| r.targets.clone()).collect();
+        let pool : Vec<&[u8]> = if rng.chance(1, 2) { vec![b"A", b"B"] } else { vec![b"A", b"B", b"C"] };
+        let epochs = rng.range(3, if cfg.thorough { 7 } else { 5 });
+        for e in 0..epochs
+        {
+            if e > 0
+            {
+                for l in leaves.iter()
+                {
+                    if rng.chance(3, 5) { case.ops.push(Op::Write{ path : l.clone(), content : rng.pick(&pool).to_vec() }); }
+                }
+                if targets.len() > 0 && rng.chance(1, 8)
+                {
+                    case.ops.push(Op::Clean{ goal : Some(rng.pick(&targets).clone()), sched : SchedSpec{ strategy : Strategy::Serial, seed : 0 } });
+                }
+            }
+            let goal = if targets.len() > 0 && rng.chance(1, 8) { Some(rng.pick(&targets).clone()) } else { None };
+            case.ops.push(Op::Build{ goal : goal, sched : SchedSpec{ strategy : if rng.chance(1, 2) { Strategy::Serial } else { Strategy::Reverse }, seed : 0 } });
+        }
+    }
+    if k < 3 * cfg.workers { stats.sample(case.to_j()); }
+
+    let vs = run_pair(&case, Some(stats));
+    let mut found = vec![];
+    let mut seen = BTreeSet::new();
+    for v in vs
+    {
+        if !seen.insert(v.sig.clone()) { continue; }
+        let sig = v.sig.clone();
+        let test = move |c : &Case| run_pair(c, None).iter().any(|x| x.sig == sig);
+        let small = minimize(&case, &test);
+        let detail = run_pair(&small, None).into_iter().find(|x| x.sig == v.sig).map(|x| x.detail).unwrap_or(v.detail.clone());
+        found.push(Found{ prop : "C18".to_string(), sig : v.sig.clone(), detail : detail, explain : small.to_j(), replay : Replay::Table{ case : small } });
+    }
+    found
+}
